@@ -1108,4 +1108,146 @@ MC_INIT
         mc::more_cases(1, 1);
         flush_notes();
     });
+
+    // (9) ADJACENT PAIRS: every ordered pair (x,y) of boundary bytes next to each other at EVERY position 0..15 of a 24-byte
+    //     string (= every position modulo 8, inside a group and across the group boundary), for every byte-wise str* routine
+    mc::add_check("str_byte_pairs_every_position", [] {
+        init_arenas();
+        int c0 = mc::choose(19 * 19);
+        uint8_t x = PAIR_BYTES[c0 / 19], y = PAIR_BYTES[c0 % 19];
+        mc::describe("bytes %02x %02x adjacent at positions 0..15 of a 24-byte string of '5's: strlwr strupr strcasecmp strncasecmp strcasestr strcmp strncmp strchr strrchr strchrnul strstr strspn strcspn strpbrk strlen strcpy strncpy strcat, both guard placements",
+                     x, y);
+        mc::nontrivial();
+        auto flip = [](uint8_t c) -> uint8_t { return (c >= 'A' && c <= 'Z') || (c >= 'a' && c <= 'z') ? c ^ 0x20 : c; };
+        unsigned long c_before = ncalls;
+        for (PL = AFTER; PL <= BEFORE; PL++)
+            for (int p = 0; p < 16; p++)
+            {
+                uint8_t s[32], f[32], w[32], nd[4], set[4];
+                memset(s, '5', 24);
+                s[24] = 0;
+                s[p] = x;
+                s[p + 1] = y;
+                for (int i = 0; i <= 24; i++)
+                    f[i] = flip(s[i]); // equal ignoring case
+                memcpy(w, s, 25);
+                w[p] = y;
+                w[p + 1] = x; // the pair the other way round
+                t_lwrupr(s, 24);
+                t_casecmp(s, 24, f, 24);
+                t_casecmp(f, 24, s, 24);
+                t_casecmp(s, 24, w, 24);
+                t_ncasecmp(s, 24, f, 24, p + 2);
+                t_ncasecmp(s, 24, w, 24, p + 2);
+                t_ncasecmp(s, 24, w, 24, p + 1);
+                t_cmp(s, 24, w, 24);
+                t_cmp(w, 24, s, 24);
+                t_ncmp(s, 24, w, 24, p + 1);
+                t_ncmp(s, 24, w, 24, p + 2);
+                nd[0] = flip(x), nd[1] = flip(y), nd[2] = 0;
+                t_search(s, 24, nd, 2, true, false);
+                nd[0] = x, nd[1] = y;
+                t_search(s, 24, nd, 2, false, false);
+                nd[0] = y, nd[1] = x;
+                t_search(s, 24, nd, 2, false, false);
+                t_search(s, 24, nd, 2, true, false);
+                set[0] = '5', set[1] = x, set[2] = 0;
+                t_search(s, 24, set, 2, false, true); // strspn stops at y, strcspn/strpbrk at 0
+                set[0] = y, set[1] = 0;
+                t_search(s, 24, set, 1, false, true);
+                t_chr(s, 24, y);
+                t_chr(s, 24, x);
+                t_chr(s, 24, (int)(signed char)y);
+                t_strlen(s, 24);
+                t_strcpy(s, 24);
+                t_strncpy(s, 24, p + 2);
+                t_strnlen(s, 24, p + 1);
+                {
+                    uint8_t pre[4] = {y, x, '5', 0}; // destination string the source is appended to
+                    t_cat(s, 24, pre, 3);
+                }
+            }
+        PL = AFTER;
+        unsigned long calls = ncalls - c_before;
+        mc::more_cases(calls - 1, calls - 1);
+        flush_notes();
+    });
+
+    // (10) ALIASED read-only operands: the second operand lies INSIDE the first one's buffer (s and s+k), which the
+    //      definitions of the comparing / searching routines allow
+    mc::add_check("str_aliased_operands", [] {
+        init_arenas();
+        int L = mc::thorough() ? 6 : 5;
+        int NTOT = (int)TS.upto[L], CH = 16;
+        int chunk = mc::choose((NTOT + CH - 1) / CH);
+        int ifirst = chunk * CH, ilast = ifirst + CH <= NTOT ? ifirst + CH - 1 : NTOT - 1;
+        mc::describe("strings #%d..#%d: f(s, s+k) for every k in 0..len: strcmp strncmp strcasecmp strncasecmp strstr strcasestr strspn strcspn strpbrk memcmp, both guard placements", ifirst, ilast);
+        mc::nontrivial();
+        unsigned long c_before = ncalls;
+        RO_ON = true; // the shared buffer is read-only during every call
+        for (int i = ifirst; i <= ilast; i++)
+            for (PL = AFTER; PL <= BEFORE; PL++)
+                for (size_t k = 0; k <= TS.v[i].len; k++)
+                {
+                    const Str &s = TS.v[i];
+                    size_t l = s.len;
+                    char *ai = (char *)I[0].put(s.b, l + 1, PL), *ar = (char *)R[0].put(s.b, l + 1, PL);
+                    char *bi = ai + k, *br = ar + k;
+                    long gi = 0, gr = 0;
+#define ALIAS(fn, IMPL, REF, NORM)                                                                                  \
+    {                                                                                                               \
+        setK(fn, s.b, l + 1, s.b + k, l - k + 1);                                                                   \
+        K.cls = "second_operand_inside_first";                                                                      \
+        K.ro = 1;                                                                                                   \
+        gr = NORM(REF);                                                                                             \
+        bool ok = guarded_ro([&] { gi = NORM(IMPL); });                                                             \
+        ncalls++;                                                                                                   \
+        if (!ok)                                                                                                    \
+            fault();                                                                                                \
+        else if (gi != gr)                                                                                          \
+            bad("return", "returned %ld, want %ld (b = a+%zu)", gi, gr, k);                                         \
+    }
+#define SG(e) (long)sgn(e)
+#define OFA(e) off((e), ai)
+#define OFR(e) off((e), ar)
+#define ID(e) (long)(e)
+                    ALIAS("strcmp", igc_strcmp(ai, bi), strcmp(ar, br), SG)
+                    ALIAS("strncmp", igc_strncmp(ai, bi, l), strncmp(ar, br, l), SG)
+                    ALIAS("strcasecmp", igc_strcasecmp(ai, bi), strcasecmp(ar, br), SG)
+                    ALIAS("strncasecmp", igc_strncasecmp(ai, bi, l), strncasecmp(ar, br, l), SG)
+                    ALIAS("strspn", igc_strspn(ai, bi), strspn(ar, br), ID)
+                    ALIAS("strcspn", igc_strcspn(ai, bi), strcspn(ar, br), ID)
+                    ALIAS("memcmp", igc_memcmp(ai, bi, l - k), memcmp(ar, br, l - k), SG)
+                    {
+                        setK("strstr", s.b, l + 1, s.b + k, l - k + 1);
+                        K.cls = "second_operand_inside_first";
+                        K.ro = 1;
+                        char *ri = nullptr, *rr = strstr(ar, br);
+                        CALL(ri = igc_strstr(ai, bi));
+                        if (off(ri, ai) != off(rr, ar))
+                            bad("return", "returned a%+ld, want a%+ld (needle = a+%zu)", off(ri, ai), off(rr, ar), k);
+                        setK("strcasestr", s.b, l + 1, s.b + k, l - k + 1);
+                        K.cls = "second_operand_inside_first";
+                        K.ro = 1;
+                        rr = strcasestr(ar, br);
+                        CALL(ri = igc_strcasestr(ai, bi));
+                        if (off(ri, ai) != off(rr, ar))
+                            bad("return", "returned a%+ld, want a%+ld (needle = a+%zu)", off(ri, ai), off(rr, ar), k);
+                        setK("strpbrk", s.b, l + 1, s.b + k, l - k + 1);
+                        K.cls = "second_operand_inside_first";
+                        K.ro = 1;
+                        rr = strpbrk(ar, br);
+                        CALL(ri = igc_strpbrk(ai, bi));
+                        if (off(ri, ai) != off(rr, ar))
+                            bad("return", "returned a%+ld, want a%+ld (set = a+%zu)", off(ri, ai), off(rr, ar), k);
+                    }
+                    winchk(0, (uint8_t *)ai, 0);
+                }
+        RO_ON = false;
+        PL = AFTER;
+        unsigned long calls = ncalls - c_before;
+        mc::outcome(mc::fmt("aliased %lu", calls % 7));
+        mc::more_cases(calls - 1, calls - 1);
+        flush_notes();
+    });
 }
